@@ -442,6 +442,16 @@ def lifted_iter(alg, r):
             if len(ps) == 1:
                 rr = alg.te.eval_path(cb, ps[0], [("ref", f), ("param", 2)]).ret
                 inner = self_path(rr, root=("param", 2))
+    elif isinstance(f, tuple) and f[0] == "fnref":
+        # a named function instead of a closure: a crate-local projection fn, or a std accessor applied to the item
+        fb = alg.f.body(norm(f[1])) or alg.f.body(f[1])
+        if fb is not None:
+            ps = alg.te.paths(fb, max_paths=4)
+            if len(ps) == 1:
+                rr = alg.te.eval_path(fb, ps[0], [("param", 2)]).ret
+                inner = self_path(rr, root=("param", 2))
+        else:
+            inner = ["call:" + norm(f[1])]
     return (mk, inner)
 
 
